@@ -77,14 +77,14 @@ def run_sim(case, full, budget):
     return EoN.fast_nonMarkov_SIR(G, trans_and_rec_time_fxn=joint, **kw)
 
 
-def prop_fpp(case):
-    nodes, adj, dur, delay = tables(case)
+def prop_fpp(case, runner=None, table_fn=None, name='fast_nonMarkov_SIR'):
+    runner = runner or run_sim
+    nodes, adj, dur, delay = (table_fn or tables)(case)
     I0 = [oracles.tolabel(u) for u in case['I0']]
     R0 = [oracles.tolabel(u) for u in case['R0']]
     tmin, tmax = case['tmin'], _v(case['tmax'])
     inf_t, rec_t, preds = oracles.first_passage(nodes, adj, delay, dur, I0, R0, tmin, tmax)
     fails = []
-    name = 'fast_nonMarkov_SIR'
     N = len(nodes)
     # expected collapsed series
     evs = sorted(set([tmin] + list(inf_t.values()) + list(rec_t.values())))
@@ -95,7 +95,7 @@ def prop_fpp(case):
         want_rows.append((N - i_ - r_, i_, r_))
     budget = CallBudget(50 * (len(delay) + N + 1), 'delay/duration rule')
     try:
-        arr = run_sim(case, False, budget)
+        arr = runner(case, False, budget)
         t = [float(x) for x in arr[0]]
         rows = list(zip(*[[int(x) for x in col] for col in arr[1:]]))
         ct, cr = [], []
@@ -116,7 +116,7 @@ def prop_fpp(case):
         fails.append(Failure('%s:arrays:exception:%s' % (name, exc_signature(e)), 'arrays mode raised %r' % (e,)))
     budget = CallBudget(50 * (len(delay) + N + 1), 'delay/duration rule')
     try:
-        full = run_sim(case, True, budget)
+        full = runner(case, True, budget)
         for u in nodes:
             ts, ss = full.node_history(u)
             ts, ss = [float(x) for x in ts], list(ss)
@@ -157,9 +157,88 @@ def prop_fpp(case):
     two = any(len(p) >= 2 for p in preds.values()) or any(
         sum(1 for u in adj if v in adj[u] and u in inf_t and delay[(u, v)] <= dur[u]) >= 2 for v in inf_t if v not in I0)
     cut = tmax != INF and any(True for u in nodes if u not in inf_t and u not in R0)
-    classes = ['api=' + case['api']] + (['pruned-edge'] if pruned else []) + (['two-paths'] if two else []) + \
+    classes = ['api=' + case.get('api', 'fast_SIR')] + (['pruned-edge'] if pruned else []) + (['two-paths'] if two else []) + \
               (['ties'] if any(len(p) >= 2 for p in preds.values()) else []) + (['R0'] if R0 else [])
     return Result(fails, nontrivial=pruned and (two or cut), classes=classes)
+
+
+# ---------------------------------------------------------------------------
+# fast_SIR on its weighted / zero-rate path: the wrapper around the same engine
+# ---------------------------------------------------------------------------
+
+class _MeanDelays(object):
+    """stands in for the `random` module: every exponential draw returns its mean 1/rate, so the delays and durations the
+    wrapper hands to the event engine are known exactly (1/(tau*w_uv), 1/(gamma*w_u)); anything else is the real module"""
+    def expovariate(self, rate):
+        return 1.0 / rate
+
+    def __getattr__(self, name):
+        import random as _r
+        return getattr(_r, name)
+
+
+@st.composite
+def fastsir_case(draw):
+    directed = draw(st.booleans())
+    gc = draw(gen.graph_case(2, 7, labels=('int', 'str', 'tuple'), weighted=True, directed=directed, wpool=[0.5, 1.0, 2.0, 4.0, 0.25]))
+    gc['ew'] = {'w': [draw(st.sampled_from([0.5, 1.0, 2.0, 4.0, 0.25])) for _ in gc['edges']]}
+    gc['nw'] = {'rw': [draw(st.sampled_from([0.5, 1.0, 2.0, 4.0])) for _ in gc['nodes']]}
+    I0, R0 = draw(gen.initial_sets(gc['nodes']))
+    tmin = draw(st.sampled_from([0, 0, -1.5, 2]))
+    mode = draw(st.sampled_from(['weighted', 'weighted', 'node-weighted-only+tau0', 'gamma0', 'edge-weighted-only']))
+    tau = 0.0 if mode.endswith('tau0') else draw(st.sampled_from([0.5, 1.0, 2.0]))
+    gamma = 0.0 if mode == 'gamma0' else draw(st.sampled_from([0.5, 1.0, 2.0]))
+    return {'gc': gc, 'I0': I0, 'R0': R0, 'tmin': tmin, 'tmax': draw(st.sampled_from(['inf', 'inf', tmin + 1, tmin + 2.5, tmin + 4])),
+            'tau': tau, 'gamma': gamma, 'mode': mode}
+
+
+def fastsir_tables(case):
+    gc = case['gc']
+    nodes, adj = oracles.adjacency(gc)
+    use_ew = case['mode'] in ('weighted', 'edge-weighted-only')
+    use_nw = case['mode'] in ('weighted', 'node-weighted-only+tau0', 'gamma0')
+    ew = oracles.edge_weight_fn(gc, 'w' if use_ew else None)
+    nw = oracles.node_weight_fn(gc, 'rw' if use_nw else None)
+    dur = {}
+    for u in nodes:
+        r = case['gamma'] * nw(u)
+        dur[u] = 1.0 / r if r > 0 else INF
+    delay = {}
+    for u in nodes:
+        for v in adj[u]:
+            r = case['tau'] * ew(u, v)
+            delay[(u, v)] = 1.0 / r if r > 0 else INF
+    return nodes, adj, dur, delay
+
+
+def run_fastsir(case, full, budget):
+    import EoN
+    import EoN.simulation as sim
+    G = oracles.build_graph(case['gc'])
+    kw = dict(initial_infecteds=[oracles.tolabel(u) for u in case['I0']], tmin=case['tmin'], tmax=_v(case['tmax']), return_full_data=full)
+    if case['R0']:
+        kw['initial_recovereds'] = [oracles.tolabel(u) for u in case['R0']]
+    if case['mode'] in ('weighted', 'edge-weighted-only'):
+        kw['transmission_weight'] = 'w'
+    if case['mode'] in ('weighted', 'node-weighted-only+tau0', 'gamma0'):
+        kw['recovery_weight'] = 'rw'
+    import random as _random
+    if getattr(sim, 'random', None) is not _random:
+        from ..runner import HarnessError
+        raise HarnessError('EoN.simulation.random is not the stdlib random module')
+    sim.random = _MeanDelays()
+    try:
+        return EoN.fast_SIR(G, case['tau'], case['gamma'], **kw)
+    finally:
+        sim.random = _random
+
+
+def prop_fastsir(case):
+    if case['mode'] == 'edge-weighted-only' and case['tau'] * case['gamma'] == 0:
+        pass
+    res = prop_fpp(case, runner=run_fastsir, table_fn=fastsir_tables, name='fast_SIR')
+    res.classes = ['mode=' + case['mode']] + (['directed-input'] if case['gc'].get('directed') else ['undirected-input']) + res.classes[1:]
+    return res
 
 
 # ---------------------------------------------------------------------------
@@ -269,6 +348,8 @@ def marginal_check(ctx, sub, quick):
 def replay(ctx, sub, case):
     if sub == 'builders':
         return prop_builders(case).failures
+    if sub == 'fast_SIR-wrapper':
+        return prop_fastsir(case).failures
     if sub == 'marginals':
         before = len(ctx.violations)
         marginal_check(ctx, 'marginals', True)
@@ -283,12 +364,15 @@ def run(ctx):
                 '(recipients only)}, both return modes; oracle = own Dijkstra first-passage percolation with tie sets (exact equality). '
                 'Non-trivial: an edge pruned by duration and (a node with two candidate paths or a tmax cut). Builders: same tables '
                 'through nonMarkov_directed_percolate_network_with_timing (weights on/off); get_infected_nodes with the builder spied; '
-                'directed_percolate_network marginals by two-stage exact binomial tests.')
+                'directed_percolate_network marginals by two-stage exact binomial tests. fast_SIR-wrapper: fast_SIR on its weighted and zero-rate paths with '
+                'every exponential draw replaced by its mean 1/rate (directed and undirected inputs, asymmetric reciprocal weights) vs the same oracle.')
     ctx.assumptions = ['delay/duration rules are pure functions of their arguments', 'dyadic values, so float additions are exact',
                        'simultaneous rows are compared after collapsing equal times (their relative order is the queue\'s choice)']
     only = getattr(ctx, 'only', None)
     if not only or 'fpp' in only:
         run_hypothesis(ctx, 'fpp', fpp_case(), prop_fpp, 2500 if quick else 150000, rounds=4)
+    if not only or 'fast_SIR-wrapper' in only:
+        run_hypothesis(ctx, 'fast_SIR-wrapper', fastsir_case(), prop_fastsir, 700 if quick else 30000)
     if not only or 'builders' in only:
         run_hypothesis(ctx, 'builders', fpp_case(), prop_builders, 400 if quick else 10000)
     if not only or 'marginals' in only:
